@@ -691,6 +691,11 @@ RAW_SAMPLES = [
     ("p/q", ".", "p/q"), ("a\\", ".", "a\\\\"),
     ("r\\.s", ".", "r\\\\\\.s"), ("x\\[", ".", "x\\\\\\["),
     ("plain", ".", "plain"),
+    # text that a well-meant clean-up would change: the reported path must
+    # name the key as it is in the document
+    ("cafe\u0301", ".", "cafe\u0301"), ("MiXed", ".", "MiXed"),
+    (" lead", ".", "\\ lead"), ("tab\there", ".", "tab\there"),
+    ("\u00e9", ".", "\u00e9"), ("line\nbreak", ".", "line\nbreak"),
 ]
 
 
